@@ -49,6 +49,9 @@ DOMAINS = ["example.com", "EXAMPLE.COM", "h", "a.b.c", "xn--bcher-kva.de", "b\u0
            "localhost", "LOCALHOST", "loc%61lhost", "%41.com", "a%2Eb", "a%2fb", "a%00b", "a b", "a<b", "a>b", "a^b", "a|b",
            "a\u3002b", "a\uff0eb", "\uff21\uff22", "a\u00adb", "\u200d", "a\u200db", "\u05d0.com", "\u05d0a.com", "a\u0338", "<\u0338",
            "%C2%AD", "a%C2%ADb", "a<%CC%B8b", ">%cc%b8", "<%C2%AD%CC%B8", "a<%41", "=%CC%B8", "a<b%CC%B8", "%ef%bc%8e", ".", "..", "a.", "a..", ".a", "%2e", "a_b", "a!$&'()*+,;=b", "a%", "a%4", "a%zz",
+           # hosts that end in a number only AFTER the UTS 46 mapping / percent-decoding
+           "1.2.3.\uff14", "\uff10x10", "10.0.0.1\u3002", "example.\uff11\uff12", "1.2.3.4\u00ad", "1\u00ad.2", "\uff11\uff12\uff13", "1.2.3.%EF%BC%94",
+           "0\uff58\uff11\uff10", "1.2.3.4\uff0e", "a.\u0661", "\u00b9.2.3.4", "1.2.3.\u2463", "\u2488", "a.0\uff38f", "1.2.3.%31%E3%80%82",
            "\U0001f4a9.com", "ex\u00e4mple.com", "\u0131.com", "\u00df.de", "\u03c2.gr", "", "a" * 64 + ".com", "a." * 130 + "b"]
 CREDS = ["", "u@", "u:p@", ":p@", "u:@", ":@", "@", "u:p:q@", "a@b@", "a:b@c:d@", "u%40:p%3A@", "\u00fc:\u00e9@", "u /:p\\;=@", "%zz@", "[u]@", "^|@"]
 PORTS = ["", ":", ":0", ":80", ":443", ":21", ":8080", ":65535", ":65536", ":99999", ":000080", ":0000000000000000443",
@@ -64,9 +67,29 @@ def gen_host(r):
     if x < 0.7: return r.choice(DOMAINS)
     if x < 0.8: return "".join(r.choice("abcXYZ019.-_%:[]@\u00e9\u3002xn") for _ in range(r.randint(1, 12)))
     if x < 0.9:
+        h = gen_numeric_host(r)
+        if r.random() < 0.3:
+            # the same numeral text, written so that only the IDNA mapping makes it ASCII
+            out = []
+            for ch in h:
+                k = r.random()
+                if k < 0.25 and ch.isdigit(): out.append(chr(0xFF10 + int(ch)))
+                elif k < 0.25 and ch in "xX": out.append(r.choice(["\uff58", "\uff38"]))
+                elif k < 0.3 and ch == ".": out.append(r.choice(["\u3002", "\uff0e", "\uff61", "%2E"]))
+                elif k < 0.35: out.append(ch + "\u00ad")
+                elif k < 0.45 and ord(ch) < 128: out.append("%%%02X" % ord(ch))
+                else: out.append(ch)
+            h = "".join(out)
+        return h
+    return gen_v6_host(r)
+
+def gen_numeric_host(r):
+    if True:
         return ".".join(r.choice(["0", "1", "255", "256", "0x0", "0xff", "0x100", "0377", "0400", "65535", "65536", "16777215",
                                   "16777216", "4294967295", "4294967296", "0x100000000", "00000000000", "037777777777", "040000000000",
                                   "1" * 12, "", "0x", "9", "08", "a"]) for _ in range(r.randint(1, 5)))
+
+def gen_v6_host(r):
     pieces = [r.choice(["0", "1", "ffff", "FFFF", "0001", "10000", "abcd", "g", ""]) for _ in range(r.randint(0, 9))]
     s = ":".join(pieces)
     if r.random() < 0.5:
